@@ -310,6 +310,8 @@ pub fn generate(rng: &Rng, world: &World, tier: &str) -> C17 {
         2 => Some("new/nested dir/out.zip".to_string()),
         _ => Some("ABS:abs-out.zip".to_string()),
     };
+    // updating a bundle in place: the context archive is also the output path
+    let out = if with_ctx && out.is_some() && r.chance(1, 4) { Some("context.zip".to_string()) } else { out };
     let mut fault = Fault::None;
     let mut io_plan = String::new();
     let mut clock = if r.chance(1, 2) { steady_clock() } else { random_clock(&mut r) };
@@ -400,7 +402,7 @@ pub fn generate(rng: &Rng, world: &World, tier: &str) -> C17 {
         _ => {}
     }
     let formula_file = layout(&mut r, &lines);
-    let out_stale = out.is_some() && r.chance(1, 4);
+    let out_stale = out.is_some() && out.as_deref() != Some("context.zip") && r.chance(1, 4);
     let ctx_decoys = with_ctx && r.chance(1, 3);
     C17 { format, model_text, formula_file, print, out, ctx, fault, clock, rand: r.next_u64(), io_plan, prior_crash, chained_from, out_stale, ctx_decoys }
 }
@@ -1017,7 +1019,7 @@ pub fn check(world: &World, sc: &C17, sandbox: &str) -> Report {
         };
         args.push("-o".to_string());
         args.push(arg);
-        if sc.out_stale {
+        if sc.out_stale && o != "context.zip" {
             // a previous, larger run wrote to the same path
             if let Some(parent) = std::path::Path::new(&abs).parent() {
                 let _ = std::fs::create_dir_all(parent);
@@ -1162,7 +1164,9 @@ pub fn check(world: &World, sc: &C17, sandbox: &str) -> Report {
         return rep;
     }
     // --- bounded liveness: a fault-free re-run with valid inputs must succeed completely ---------
-    if (hard_fault || ctx_damaged) && !expect_message {
+    // (when the bundle is updated in place, a faulty run has legitimately destroyed the context)
+    let in_place = sc.out.as_deref() == Some("context.zip");
+    if (hard_fault || ctx_damaged) && !expect_message && !in_place {
         if let Some((r, _)) = &refr {
             if ctx_damaged {
                 // repair the context: without -e if the formulae are plain, else skip
